@@ -228,9 +228,23 @@ CLAIMS = [
                 'exhaustive evaluation inside small argument domains, not a proof; premade verify_config and rtl_lib are not enumerated.',
         'design_ref': 'DESIGN.md section 4 C16',
     },
+    {
+        'property_id': 'C17',
+        'level': 'exploration',
+        'technique': 'bounded stand-in for contract-based verification: postconditions of the real structure builders evaluated for '
+                     'every outcome of the numpy random calls (path oracle; exhaustive for the smallest sizes, sampled beyond)',
+        'text': 'Labelled bounded, never counted as proved: the builders are pure Python over lists of data-dependent length and no '
+                'verifier for Python is available; the only non-determinism (numpy random calls) is replaced by an oracle and the '
+                'postconditions (rank-sized lattices, every feature used, balanced RTL usage, no repeats, pairs cover, monotone slot '
+                'wiring, determinism in the seed) are evaluated on every returned structure. One known finding (Crystals, zero-'
+                'importance feature).',
+        'note': 'Bounded: <= 6 features / inputs, <= 5 lattices, rank <= 3; oracle outcomes exhaustive only for <= 3-4 inputs; '
+                'Crystals scores from a small grid. Trusted: seeded numpy generators are deterministic.',
+        'design_ref': 'DESIGN.md section 4 C17',
+    },
 ]
 
 _PENDING = 'check not built yet in this session (planned, see DESIGN.md section 4); not claimed until its check exists'
 NOT_APPLICABLE = [
-    {'property_id': 'C%02d' % i, 'reason': _PENDING} for i in range(2, 21) if i not in (2, 4, 5, 6, 7, 8, 9, 10, 12, 13, 14, 15, 16, 19, 20)
+    {'property_id': 'C%02d' % i, 'reason': _PENDING} for i in range(2, 21) if i not in (2, 4, 5, 6, 7, 8, 9, 10, 12, 13, 14, 15, 16, 17, 19, 20)
 ]
